@@ -105,6 +105,7 @@ const (
 	deliver pumpAction = iota
 	drop
 	duplicate
+	swapNext // deliver the next queued datagram first, then this one
 )
 
 // pump delivers queued datagrams one at a time until done() holds at a quiescent
@@ -140,6 +141,16 @@ func (w *mwire) pump(done func() bool, maxVirtual time.Duration, decide func(idx
 			act = decide(idx, d)
 		}
 		idx++
+		if act == swapNext {
+			w.mu.Lock()
+			if len(w.q) > 0 { // put it back behind the next one
+				next := w.q[0]
+				w.q = append([]mdgram{next, d}, w.q[1:]...)
+				w.mu.Unlock()
+				continue
+			}
+			w.mu.Unlock()
+		}
 		if dst == nil || act == drop {
 			continue
 		}
